@@ -58,6 +58,151 @@ func runC01(c *Ctx) {
 	c.r0110(pk)
 	c.r0111(pk)
 	c.r0112(pk)
+	c.r0113(pk)
+}
+
+// R01.13: traversals of binding patterns reach every nested binding.
+func (c *Ctx) r0113(pk *packages.Package) {
+	const rule = "R01.13"
+	c.R.Rule(rule, "every type switch of package js over js.IBinding (the collector bindingVars, the printer minifyBinding) forwards, in each clause of a pattern type, every nested binding slot of that type — fields of type js.IBinding reached through value structs and slices (BindingArray.List[].Binding, BindingArray.Rest, BindingObject.List[].Value.Binding) — to a recursive call (directly, or through a helper that receives the enclosing element and forwards its .Binding), and uses every *js.Var slot (BindingObject.Rest). A slot that is only type-asserted to one implementation hides the names bound by a nested pattern: `var [b,...[c,d]]=x` then loses the declarations of c and d when declarations are merged")
+	info := pk.TypesInfo
+	ibind := c.P.Dep(pjs).Types.Scope().Lookup("IBinding")
+	if ibind == nil {
+		c.R.Unres(rule, "parse/js.IBinding", "-", "interface not found")
+		return
+	}
+	n := 0
+	for _, ts := range c.jsTypeSwitches(pk) {
+		if ts.iface != "IBinding" {
+			continue
+		}
+		self := info.Defs[ts.fd.Name]
+		for _, tname := range sortedKeys(keysOfCC(ts.cases)) {
+			if tname == "Var" {
+				continue // a name, not a pattern (its Link field chains renamed declarations)
+			}
+			cc := ts.cases[tname]
+			tn := c.P.Dep(pjs).Types.Scope().Lookup(tname)
+			var slots []string
+			c.evaluatedSlots(tn.Type(), ibind.Type(), "", 0, &slots)
+			// *js.Var fields are binding names too
+			if st, ok := tn.Type().Underlying().(*types.Struct); ok {
+				for i := 0; i < st.NumFields(); i++ {
+					if isNamed(st.Field(i).Type(), pjs, "Var") {
+						if _, isPtr := st.Field(i).Type().(*types.Pointer); isPtr {
+							slots = append(slots, st.Field(i).Name()+"*")
+						}
+					}
+				}
+			}
+			if len(slots) == 0 {
+				continue
+			}
+			n++
+			construct := fmt.Sprintf("js.%s/case *js.%s", load.FuncName(ts.fd), tname)
+			covered := map[string]bool{}
+			if len(cc.List) == 1 {
+				covered = c.forwardedSlots(pk, cc, info.Implicits[cc], self, 0)
+			}
+			var missing []string
+			for _, sl := range slots {
+				if !covered[sl] {
+					missing = append(missing, sl)
+				}
+			}
+			c.R.Check(len(missing) == 0, rule, construct, c.pos(cc), "forwards "+strings.Join(slots, ", "),
+				fmt.Sprintf("binding slot(s) %s of *js.%s never reach the recursive traversal as a whole (type-asserting a slot to one implementation does not count): names bound by a nested pattern in that position are invisible to %s", strings.Join(missing, ", "), tname, load.FuncName(ts.fd)))
+		}
+	}
+	c.R.Floor(rule, "pattern clauses of IBinding traversals", n, 4)
+}
+
+// forwardedSlots: slot paths (relative to root) passed as an argument to target inside body — directly,
+// or by handing an enclosing struct to a package function that forwards a field of it (one level).
+// `F*` marks a *js.Var field F that is used as a call argument (F or F.Data).
+func (c *Ctx) forwardedSlots(pk *packages.Package, body ast.Node, root types.Object, target types.Object, depth int) map[string]bool {
+	info := pk.TypesInfo
+	alias := map[types.Object]string{}
+	if root != nil {
+		alias[root] = ""
+	}
+	ast.Inspect(body, func(x ast.Node) bool {
+		if rs, ok := x.(*ast.RangeStmt); ok {
+			if p, ok := c.slotPath(info, rs.X, alias); ok {
+				if id, ok := rs.Value.(*ast.Ident); ok {
+					alias[info.Defs[id]] = p + "[]"
+				}
+			}
+		}
+		return true
+	})
+	out := map[string]bool{}
+	join := func(p, q string) string {
+		if p == "" {
+			return q
+		}
+		if q == "" {
+			return p
+		}
+		return p + "." + q
+	}
+	ast.Inspect(body, func(x ast.Node) bool {
+		call, ok := x.(*ast.CallExpr)
+		if !ok {
+			return true
+		}
+		co := callee(info, call)
+		for i, a := range call.Args {
+			p, ok := c.slotPath(info, a, alias)
+			if !ok {
+				continue
+			}
+			out[p+"*"] = true // used as an argument (Var slots); also X.Data below
+			if co == target {
+				out[p] = true
+				continue
+			}
+			fo, _ := co.(*types.Func)
+			if fo == nil || fo.Pkg() != pk.Types || depth > 0 {
+				continue
+			}
+			fd := c.P.DeclOf(fo)
+			if fd == nil || fd.Body == nil {
+				continue
+			}
+			var params []types.Object
+			for _, f := range fd.Type.Params.List {
+				for _, nm := range f.Names {
+					params = append(params, info.Defs[nm])
+				}
+			}
+			if i >= len(params) {
+				continue
+			}
+			for q := range c.forwardedSlots(pk, fd.Body, params[i], target, depth+1) {
+				if !strings.HasSuffix(q, "*") {
+					out[join(p, q)] = true
+				}
+			}
+		}
+		return true
+	})
+	// X.Data used as an argument counts as a use of the *js.Var slot X
+	ast.Inspect(body, func(x ast.Node) bool {
+		call, ok := x.(*ast.CallExpr)
+		if !ok {
+			return true
+		}
+		for _, a := range call.Args {
+			if sel, ok := ast.Unparen(a).(*ast.SelectorExpr); ok && sel.Sel.Name == "Data" {
+				if p, ok := c.slotPath(info, sel.X, alias); ok {
+					out[p+"*"] = true
+				}
+			}
+		}
+		return true
+	})
+	return out
 }
 
 // R01.10: the string-merge only reads operands of nodes it has checked to be additions.
@@ -1644,4 +1789,10 @@ func init() {
 	mutant(&Mutant{Name: "c01-regexp-x-escape", Property: "C01", File: "js/util.go",
 		Old: "\ttrue, false, false, true, true, true, false, false, // x, {, |, }\n", New: "\tfalse, false, false, true, true, true, false, false, // x, {, |, }\n",
 		Rule: "R01.7", Construct: "regexpEscapeTable['x']"})
+	mutant(&Mutant{Name: "c01-array-rest-only-identifier", Property: "C01", File: "js/vars.go",
+		Old: "\t\tif binding.Rest != nil {\n\t\t\tvs = append(vs, bindingVars(binding.Rest)...)\n\t\t}", New: "\t\tif v, ok := binding.Rest.(*js.Var); ok {\n\t\t\tvs = append(vs, v)\n\t\t}",
+		Rule: "R01.13", Construct: "bindingVars/case *js.BindingArray"})
+	mutant(&Mutant{Name: "c01-object-pattern-values-skipped", Property: "C01", File: "js/vars.go",
+		Old: "\t\t\tif item.Value.Binding != nil {\n\t\t\t\tvs = append(vs, bindingVars(item.Value.Binding)...)\n\t\t\t}", New: "\t\t\tif v, ok := item.Value.Binding.(*js.Var); ok {\n\t\t\t\tvs = append(vs, v)\n\t\t\t}",
+		Rule: "R01.13", Construct: "bindingVars/case *js.BindingObject"})
 }
